@@ -29,6 +29,8 @@ Require Import Ctpg.Proofs.TermGeneric.
 Require Import Ctpg.Proofs.TermRecMachine.
 Require Import Ctpg.Proofs.TermRecAll.
 Require Import Ctpg.Proofs.GenTermChecks.
+Require Import Ctpg.Proofs.CapFormula.
+Require Import Ctpg.Proofs.CapFormulaCex.
 From Coq Require Import Permutation.
 
 (* every unchecked array/stack access of the driver (table row and column, rule_infos, erase/back/pop on the stacks, the goto after a reduction, the lexeme extent) is in range: the run never ends in Crash, for any input, options, stack capacity, functors, also through error recovery *)
@@ -126,6 +128,18 @@ Theorem C06_decides_the_language :
   forall (g : grammar) (sts : list items) (tbl : LRGen.table) (w : list nat), term_checks g sts tbl = true -> no_error_symbol g tbl = true -> LRSound.tokens_ok g w -> exists fuel : nat, forall fuel' : nat, fuel <= fuel' -> (derives g w -> exists t : tree, tree_run g tbl w fuel' = Accept t /\ derives_tree g t w) /\ (~ derives g w -> tree_run g tbl w fuel' = Reject).
 Proof. exact decides_language_checked. Qed.
 Print Assumptions C06_decides_the_language.
+
+(* the stacks used with cstring_buffer: without empty rules and error-symbol shifts the stack never holds more than input bytes + 1 entries, which the library's capacity covers *)
+Theorem C06_fixed_stacks_never_overflow_without_empty_rules_and_recovery :
+  forall (V C : Type) (g : grammar) (tbl : LRGen.table) (opts : options) (buf : list nat) (lexer : bool -> spoint -> list nat -> list lex_event * option (nat * nat)) (term_f : nat -> nat -> nat -> spoint -> V) (err_f : spoint -> V) (rule_f : nat -> C -> list V -> C * V), empty_rules g = 0 -> eof_err_not_shifted g tbl -> no_shifterrb tbl = true -> lexer_in_range lexer -> forall (fuel : nat) (c : C), SafeCap.never_above V C g tbl opts buf lexer term_f err_f rule_f (length buf + 1) fuel c.
+Proof. exact height_le_bytes_without_empty_rules. Qed.
+Print Assumptions C06_fixed_stacks_never_overflow_without_empty_rules_and_recovery.
+
+(* REFUTED in general (known findings D8 / D16): the capacity can be exceeded; since repair 5ed974d the real code then throws instead of writing out of bounds *)
+Theorem C06_fixed_stack_capacity_refuted :
+  analyze d8_raw = Some d8_g /\ (exists sts : list lrstate, gen d8_g = inl (sts, d8_tbl)) /\ validate d8_g (sts_of d8_g) d8_tbl = true /\ LRSound.tokens_ok d8_g [0] /\ cstring_cap d8_g (length [0]) = 4 /\ res (tree_run_cap d8_g d8_tbl None [0] 20) = Accept d8_tree /\ tree_run d8_g d8_tbl [0] 20 = Accept d8_tree /\ res (tree_run_cap d8_g d8_tbl (Some (cstring_cap d8_g (length [0]))) [0] 20) = Throw.
+Proof. exact cstring_capacity_formula_refuted. Qed.
+Print Assumptions C06_fixed_stack_capacity_refuted.
 
 (* without error rules a reported error ends the parse within stack-height further iterations *)
 Theorem C06_terminates_after_an_error_without_error_rules :
